@@ -58,6 +58,15 @@ def kernel_teardown(ctx, esc, rule):
                   % what, key=(rule, 'delete-half-skipped', what), site=ctx.site(dc, x))
     ctx.check(len(ds) == 2, rule, 'delete_child_sa issues exactly two kernel deletions', key=(rule, 'delete-count', len(ds)),
               site=ctx.site(dc, dc.node))
+    # (the same inside one expression: `delete_sa(out) and delete_sa(in)` skips the second half when the first reports a failure)
+    DC = ctx.sval(dc)
+    halves = {}
+    for c in DC.calls_to(qual='xfrm.Xfrm.delete_sa'):
+        halves.setdefault(tq.text(c.args.get('spi', ('undef',)), 80), []).append(c)
+    for what, cs in sorted(halves.items()):
+        ctx.check(any(not c.pc for c in cs), rule, 'delete_child_sa deletes %s unconditionally (not depending on the result for the other half)'
+                  % what, key=(rule, 'delete-half-conditional', what), site=ctx.site(dc, cs[0].node),
+                  detail={'conditions': [[tq.text(a[0], 100) for a in c.pc] for c in cs]})
     D = ctx.sval(dsa)
     sends = D.calls_to(qual='netlink.NetlinkProtocol.send_recv')
     handled = [c for c in D.calls if any(a[0][0] == 'caught' and 'NetlinkError' in tq.text(a[0]) for a in c.pc)]
